@@ -383,6 +383,9 @@ fn main() {
     cov.insert("leading_random_words".into(), json!(nwords));
     cov.insert("rule".into(), json!(
         "every ClientHello of the TLS and DTLS catalogues (parsed), constructed hellos with random slices of every length 0..=40 x 5 versions, session ids of 0..=48 / 255 / 256 / 300 bytes and extension blocks up to 70000 bytes (beyond the wire limits: constructors must not edit their arguments), a 40000-entry cipher list, extension blocks that are well-formed extension lists (every known extension alone and in pairs, incl. supported_versions) under 4 versions, leading random words over all single-bit patterns, boundaries and full 2^16 sweeps of the upper and of the lower half-word, cipher lists covering all 65536 ids, ServerHello::new / get_version / get_cipher for all 65536 ids x 13 versions (and the id lists in ClientHellos of 13 versions); each trait accessor and helper compared with the structure's own fields (slices by pointer), rand_time / rand_bytes with the big-endian split, cipher_suites / get_ciphers / get_cipher with from_id and with the registry file. Non-trivial: every value"));
+    // the same check against the crate built with all cargo features (std, serialize, unstable)
+    let mut sink = sink;
+    run.all_features_variant(&mut sink);
     let code = run.finish(&sink, cov, vec!["rand_time / rand_bytes are only constrained for randoms of at least 4 bytes (shorter constructed values: no panic)".into()]);
     std::process::exit(code);
 }
